@@ -104,7 +104,7 @@ func (s *caseState) violation(class, msg string, detail map[string]any) {
 	s.c.Violation(class, msg, detail)
 }
 
-const totalOps = 4000
+const totalOps = 2000
 
 const classStaleBeyond = "itembuf-stale-items-beyond-len-survive-put"
 
@@ -527,7 +527,7 @@ func TestC42(t *testing.T) {
 	kit.Main(t, kit.Spec{
 		ID:    "C42",
 		Level: "exploration",
-		Rule: "one case = 1..32 goroutines (4000 operations in total) doing random get/put on the three process-wide pool families, each goroutine holding up to 12 buffers per family and allowed 32/goroutines requests above 16 KiB (large allocations are slow under the race detector; further draws are redrawn below 16 KiB): bpool.GetByteBuffer (lengths 2^k-1,2^k,2^k+1 for k<=18, 262144+-2, above the maximum, 0), bpool.GetByteSlicesBuf and the writer's getItemBuf (k<=12, 4096+-2, above, 0 and negative lengths). Before a put the buffer is used/dirtied and, at random: left as is, grown past its capacity by append, extended to capacity and filled, resliced shorter, set to nil; 20% of puts are foreign buffers with arbitrary capacity (0..300, around powers of two, up to 9000) and length. " +
+		Rule: "one case = 1..32 goroutines (2000 operations in total) doing random get/put on the three process-wide pool families, each goroutine holding up to 12 buffers per family and allowed 32/goroutines requests above 16 KiB (large allocations are slow under the race detector; further draws are redrawn below 16 KiB): bpool.GetByteBuffer (lengths 2^k-1,2^k,2^k+1 for k<=18, 262144+-2, above the maximum, 0), bpool.GetByteSlicesBuf and the writer's getItemBuf (k<=12, 4096+-2, above, 0 and negative lengths). Before a put the buffer is used/dirtied and, at random: left as is, grown past its capacity by append, extended to capacity and filled, resliced shorter, set to nil; 20% of puts are foreign buffers with arbitrary capacity (0..300, around powers of two, up to 9000) and length. " +
 			fmt.Sprintf("Item buffers are returned with a len shorter than the dirtied region only in cases [0,%d). ", shortPutZone) +
 			"Oracle at every get: byte buffer and byte-slice list have len 0 and cap >= requested; item buffer has cap >= requested, len >= requested and every element of B equal to the zero Item. Built with -race. evaluations = gets checked. Non-trivial = every case (signature: goroutine count, which paths occurred: recycled foreign capacity handed out, above-maximum requests, short puts).",
 		Assumptions: []string{
@@ -536,7 +536,7 @@ func TestC42(t *testing.T) {
 			"for item buffers (getItemBuf returns len == requested) 'empty' means every element of B is the zero value",
 			"sync.Pool may drop buffers at any time (and drops a quarter of the puts under -race), so reuse is probabilistic; itembuf/bytebuffer *_recycled counters show that reuse happened",
 		},
-		Cases:           map[string]int{"quick": 240, "thorough": 3600},
+		Cases:           map[string]int{"quick": 240, "thorough": 2400},
 		RequireCounters: []string{"bytebuffer_get", "byteslices_get", "itembuf_get", "bytebuffer_put_foreign", "byteslices_put_foreign", "itembuf_put_foreign", "bytebuffer_put_grown", "byteslices_put_grown", "itembuf_put_grown", "bytebuffer_get_returned_recycled_foreign_capacity", "bytebuffer_get_above_max", "byteslices_get_above_max", "itembuf_get_above_max", "itembuf_get_non_positive_length", "byteslices_get_non_positive_length", "itembuf_put_with_dirty_elements_beyond_len", "itembuf_elements_checked_zero"},
 		CaseTimeout:     10 * time.Minute,
 		Run:             runCase,
